@@ -604,9 +604,9 @@ def run(ctx):
     jobs = []
     cfgs = list(configs(2 if ctx.quick else None))
     if ctx.thorough:
-        # full product of the request-shaping dimensions; the logging dimension stays within 3 deviations of the default
+        # full product of the request-shaping dimensions; the logging and configured-by-assignment dimensions stay within 3 deviations of the default
         near = {repr(sorted(c.items(), key=lambda kv: kv[0])) for c in configs(3)}
-        cfgs = [c for c in cfgs if not c.get("loglevel") or repr(sorted(c.items(), key=lambda kv: kv[0])) in near]
+        cfgs = [c for c in cfgs if (not c.get("loglevel") and c.get("configured") == "constructor") or repr(sorted(c.items(), key=lambda kv: kv[0])) in near]
     for i, cfg in enumerate(cfgs):
         if ctx.quick:
             sq = base_seqs if i < 40 else base_seqs[(i % 4)::4]
@@ -636,7 +636,7 @@ def run(ctx):
     cov = {
         "evaluations": tally.counts.get("evaluations", 0),
         "distinct_nontrivial": tally.counts.get("compositions", 0),
-        "rule": ("client configurations within <=2 deviations of the default" if ctx.quick else "full product of client configurations (logging at DEBUG within 3 deviations of the default)") +
+        "rule": ("client configurations within <=2 deviations of the default" if ctx.quick else "full product of client configurations (logging at DEBUG and configuration by assignment within 3 deviations of the default)") +
         " over wire form (v2/v1 x pretty x end tags, one dimension) x version within the major version x FI {none, ORG, ORG+FID with markup chars} x CLIENTUID x app id/version x language x logging at DEBUG x credentials {plain, all 95 printable "
         "ASCII characters} x configured through the constructor or by assignment on a used client x request lists: all 156 sequences of length 0..3 over the five statement request kinds + 15 lists holding equal requests (account ids with & < > quotes, 5 date options incl. -5:30, +14:00, "
         "-0:30 and sub-ms, flags) + every single-request flag/date variant (400 per kind, spread over configurations) + account-info, profile and 4 tax requests; all dryrun; "
